@@ -44,6 +44,17 @@ MUTANTS = [
     ("C17", "truthy-position", P + "rdoutput.py", "        if isnone(species) :", "        if not species :", "C17.TRUTH"),
     ("C13", "lossy-density", P + "rdsystem.py", "        state[i] = (cell_species_density * cell_vol.get_at(i)).convert(units_system).value", "        state[i] = round((cell_species_density * cell_vol.get_at(i)).convert(units_system).value, 9)", "C13.LOSSY"),
     ("C06", "convert-in-place", P + "units.py", "    return value*compute_conversion_factor(su_src, su_dst, sdim)", "    value *= compute_conversion_factor(su_src, su_dst, sdim)\n    return value", "C06.PURE"),
+    # ---- rules added in round 3
+    ("C07", "wait-from-constant", E + "GillespieGraph.hpp", "            dt = log(1/uiud(rng))/a0;", "            dt = 1/a0;", "C07.DRAWS"),
+    ("C04", "ctor-label-from-argument", P + "units.py", "            self.value = value.value\n            self.units = value.units", "            self.value = value.value\n            self.units = units", "C04.CTOR"),
+    ("C06", "convert-args-swapped", P + "units.py", "    return UnitValue(convert_value(v.value, v.units.sys, su_dst, v.units.dim), Units(su_dst, v.units.dim))", "    return UnitValue(convert_value(v.value, su_dst, v.units.sys, v.units.dim), Units(su_dst, v.units.dim))", "C06.ARGS"),
+    ("C03", "copy-through-ctor-incomplete", P + "rdsystem.py", "        return cpy.deepcopy(self)\n    \ndef rdsystem_from_dict", "        return RDSystem(self.network, self.space, state=self.state)\n    \ndef rdsystem_from_dict", "C03.COPY"),
+    ("C17", "query-memoises", P + "rdoutput.py", "        return len(self.t)", "        self._n = len(self.t)\n        return self._n", "C17.QUERY"),
+    ("C12", "data-file-by-stem", P + "rdoutput.py", "    data_path = filepath.remove_extension_if_existing(path, \".json\") + \"_data.npy\"", "    data_path = path.rsplit(\".\", 1)[0] + \"_data.npy\"", "C12.FILEREF"),
+    ("C18", "sign-carried", P + "units.py", "        if b[0] == \"/\" :\n            b[2] = -b[2]", "        if b[0] == \"/\" :\n            neg = True\n        if neg :\n            b[2] = -b[2]", "C18.EXPSIGN"),
+    ("C20", "synonyms-against-first-only", P + "value_processing.py", "            if k in s :\n                synonyms_found.append(k)\n        if len(synonyms_found)>1 : ", "            if k in s[1:] :\n                synonyms_found.append(k)\n        if len(synonyms_found)>1 : ", "C20.SYNONYMS"),
+    ("C14", "gsd-args-swapped", E + "engine.cpp", "        n_meshes,\n        n_species,\n        seed);", "        n_species,\n        n_meshes,\n        seed);", "C14.ARGS"),
+    ("C13", "chemostats-interleaved", P + "rdsystem.py", "    return chstt\n\nclass RDSystem", "    return chstt.reshape((len(network.species), space.size())).T.flatten()\n\nclass RDSystem", "C13.CONCAT"),
     # ---- C13
     ("C13", "state-index-cell-major", P + "rdsystem.py", "        return species_index * self.space.size() + cell_index", "        return cell_index * self.network.nspecies() + species_index", "C13.INDEX"),
     ("C13", "state-not-converted", P + "rdsystem.py", "        state[i] = (cell_species_density * cell_vol.get_at(i)).convert(units_system).value", "        state[i] = (cell_species_density * cell_vol.get_at(i)).value", "C13.TAG"),
